@@ -1,1 +1,3 @@
+pub mod segconv;
 pub mod spec;
+pub mod topogen;
